@@ -201,8 +201,8 @@ Proof.
   apply sorted_do_insert; auto.
 Qed.
 
-Lemma sorted_add : forall s viaspec parent nm ty frag hid ins scs v,
-  SortedS s -> SortedS (fst (op_add s viaspec parent nm ty frag hid ins scs v)).
+Lemma sorted_add : forall c s viaspec parent praw nm ty frag hid ins scs v,
+  SortedS s -> SortedS (fst (op_add c s viaspec parent praw nm ty frag hid ins scs v)).
 Proof.
   intros. unfold op_add. destruct viaspec.
   - destruct (negb (ty =? T_CONST)%N || negb (valid_name nm)); simpl; auto.
@@ -217,6 +217,7 @@ Proof.
   - destruct parent.
     + destruct (find_nd (s_ents s) n) eqn:FP; simpl; auto.
       destruct (e_meta e || is_alias e); simpl; auto.
+      destruct (dotted_parent c praw); simpl; auto.
       apply sorted_go_add; auto.
     + destruct (NFRAG <=? frag)%N; simpl; auto.
       destruct nm as [|c0 rest]; [apply sorted_go_add; auto|].
@@ -236,13 +237,14 @@ Proof.
   apply sorted_with_aliases. apply sorted_do_insert; auto.
 Qed.
 
-Lemma sorted_alias : forall s parent nm tgt frag,
-  SortedS s -> SortedS (fst (op_alias s parent nm tgt frag)).
+Lemma sorted_alias : forall c s parent praw nm tgt frag,
+  SortedS s -> SortedS (fst (op_alias c s parent praw nm tgt frag)).
 Proof.
   intros. unfold op_alias. destruct (NFRAG <=? frag)%N; simpl; auto.
   destruct parent.
   - destruct (find_nd (s_ents s) n) eqn:FP; simpl; auto.
     destruct (e_meta e || is_alias e); simpl; auto.
+    destruct (dotted_parent c praw); simpl; auto.
     apply sorted_go_alias; auto.
   - destruct nm as [|c0 rest]; [apply sorted_go_alias; auto|].
     destruct (first_slash rest) as [[pre0 sb]|]; [|apply sorted_go_alias; auto].
@@ -388,17 +390,17 @@ Qed.
 Definition op_in_scope (s : state) (o : op) : Prop :=
   match o with
   | OAffix _ _ _ => False
-  | ORen nm new flags => rename_clean s nm new flags
+  | ORen nm new flags => rename_clean s (undot nm) new flags
   | _ => True
   end.
 
 Theorem sorted_step : forall c s o, SortedS s -> op_in_scope s o -> SortedS (fst (step c s o)).
 Proof.
   intros c s o HS HO. destruct o.
-  - unfold step. destruct (affixed s); [simpl; auto|]. apply sorted_add; auto.
-  - unfold step. destruct (affixed s); [simpl; auto|]. apply sorted_alias; auto.
+  - unfold step. destruct (affixed s); [simpl; auto|]. destruct (has_dot nm); [simpl; auto|]. apply sorted_add; auto.
+  - unfold step. destruct (affixed s); [simpl; auto|]. destruct (has_dot nm); [simpl; auto|]. apply sorted_alias; auto.
   - unfold step. destruct (affixed s); [simpl; auto|]. apply sorted_del; auto.
-  - unfold step. destruct (affixed s); [simpl; auto|]. apply sorted_ren; auto.
+  - unfold step. destruct (affixed s); [simpl; auto|]. destruct (has_dot new); [simpl; auto|]. apply sorted_ren; auto.
   - unfold step. destruct (affixed s); [simpl; auto|]. apply sorted_move; auto.
   - unfold step. destruct (affixed s); [simpl; auto|]. apply sorted_hide; auto.
   - simpl in HO. tauto.
